@@ -1405,7 +1405,8 @@ namespace avel {
         auto is_reconstruction_smaller = _mm_cmplt_ps(reconstructed, decay(v));
         auto corrected_result = _mm_add_ps(reconstructed, _mm_and_ps(is_reconstruction_smaller, _mm_set1_ps(1.0f)));
 
-        return blend(mask4x32f{is_output_self}, v, vec4x32f{corrected_result});
+        // The conversion through integers loses the sign of zero results
+        return copysign(blend(mask4x32f{is_output_self}, v, vec4x32f{corrected_result}), v);
 
         #endif
 
@@ -1447,7 +1448,8 @@ namespace avel {
         auto is_reconstruction_smaller = _mm_cmplt_ps(decay(v), reconstructed);
         auto corrected_result = _mm_sub_ps(reconstructed, _mm_and_ps(is_reconstruction_smaller, _mm_set1_ps(1.0f)));
 
-        return blend(mask4x32f{is_output_self}, v, vec4x32f{corrected_result});
+        // The conversion through integers loses the sign of zero results
+        return copysign(blend(mask4x32f{is_output_self}, v, vec4x32f{corrected_result}), v);
 
         #endif
 
@@ -1476,7 +1478,8 @@ namespace avel {
         auto converted = _mm_cvttps_epi32(decay(v));
         auto reconstructed = _mm_cvtepi32_ps(converted);
 
-        return blend(mask4x32f{is_output_self}, v, vec4x32f{reconstructed});
+        // The conversion through integers loses the sign of zero results
+        return copysign(blend(mask4x32f{is_output_self}, v, vec4x32f{reconstructed}), v);
 
         #endif
 
@@ -1556,7 +1559,8 @@ namespace avel {
                 auto converted = _mm_cvtps_epi32(decay(v));
                 auto reconstructed = _mm_cvtepi32_ps(converted);
 
-                return blend(mask4x32f{is_output_self}, v, vec4x32f{reconstructed});
+                // The conversion through integers loses the sign of zero results
+                return copysign(blend(mask4x32f{is_output_self}, v, vec4x32f{reconstructed}), v);
             }
         default:
             return vec4x32f{0.0f};
